@@ -1111,7 +1111,6 @@ func vfC04CheckDecode(t kit.TB, test string, rec *kit.Rec, in []byte) (status st
 			_ = tree.UnmarshalJSON(in)
 		}()
 		if rec != nil {
-			rec.Class("out-of-domain", 1)
 			rec.Class("out-of-domain: "+strings.SplitN(why, ":", 2)[0], 1)
 			if panicked {
 				rec.Class("out-of-domain (decoder panicked; not judged)", 1)
@@ -1165,7 +1164,7 @@ func vfC04CheckDecode(t kit.TB, test string, rec *kit.Rec, in []byte) (status st
 			case string(info.Body) != body:
 				kit.Violation(t, "C04", test, render(), "revision %s: stored body %q, decoded %q", id, body, info.Body)
 			}
-			if w.ChannelsMap != nil && !vfC04SameSet(info.Channels, base.SetOf(w.ChannelsMap[key]...)) {
+			if w.ChannelsMap != nil && len(w.ChannelsOld) == 0 && !vfC04SameSet(info.Channels, base.SetOf(w.ChannelsMap[key]...)) {
 				kit.Violation(t, "C04", test, render(), "revision %s: stored channels %v, decoded %v", id, w.ChannelsMap[key], info.Channels)
 			}
 		}
@@ -1219,10 +1218,10 @@ func TestVerif_C04_CodecStrings(t *testing.T) {
 	rapid.Check(t, func(rt *rapid.T) {
 		n := rapid.IntRange(0, 6).Draw(rt, "n")
 		idx := func(label string) int {
-			switch rapid.IntRange(0, 14).Draw(rt, label+"Kind") {
-			case 0:
+			switch rapid.IntRange(0, 39).Draw(rt, label+"Kind") {
+			case 17: // (rapid favours small values: hostile choices sit on inner values so they stay the minority)
 				return n + rapid.IntRange(0, 2).Draw(rt, label+"Over") // out of range
-			case 1:
+			case 29:
 				return -1 - rapid.IntRange(0, 2).Draw(rt, label+"Neg")
 			}
 			if n == 0 {
@@ -1233,26 +1232,34 @@ func TestVerif_C04_CodecStrings(t *testing.T) {
 		w := map[string]any{}
 		revs := make([]string, n)
 		parents := make([]int, n)
+		uniqueIDs := rapid.IntRange(0, 7).Draw(rt, "uniqueIDs") != 5
 		for i := range revs {
 			revs[i] = fmt.Sprintf("%d-%s", rapid.IntRange(1, 4).Draw(rt, "gen"), rapid.SampledFrom([]string{"a", "b", "c", "d"}).Draw(rt, "dg"))
-			if rapid.IntRange(0, 30).Draw(rt, "odd") == 0 {
+			if uniqueIDs {
+				revs[i] += strconv.Itoa(i)
+			}
+			if rapid.IntRange(0, 60).Draw(rt, "odd") == 37 {
 				revs[i] = rapid.SampledFrom([]string{"", "x", "0-a", "-1-a", "1-", "2-a"}).Draw(rt, "oddRev")
 			}
 			if i == 0 || rapid.IntRange(0, 4).Draw(rt, "isRoot") == 0 {
 				parents[i] = -1
 			} else {
-				parents[i] = idx("parent")
-				if parents[i] < -1 && rapid.Bool().Draw(rt, "clampNeg") {
-					parents[i] = -1
+				if rapid.IntRange(0, 5).Draw(rt, "anyParent") == 3 {
+					parents[i] = idx("parent") // any index: forward references, self, cycles, out of range
+				} else {
+					parents[i] = rapid.IntRange(0, i-1).Draw(rt, "earlierParent")
 				}
 			}
 		}
 		w["revs"], w["parents"] = revs, parents
-		if rapid.IntRange(0, 20).Draw(rt, "lenMismatch") == 0 {
+		if rapid.IntRange(0, 20).Draw(rt, "lenMismatch") == 13 {
 			w["parents"] = append(parents, -1)
 		}
 		var list = func(label string) []int {
 			k := rapid.IntRange(0, 2).Draw(rt, label+"N")
+			if n == 0 && rapid.IntRange(0, 3).Draw(rt, label+"OnEmpty") != 2 {
+				k = 0
+			}
 			out := make([]int, k)
 			for i := range out {
 				out[i] = idx(label)
@@ -1266,7 +1273,7 @@ func TestVerif_C04_CodecStrings(t *testing.T) {
 			w["hasAttachments"] = list("att")
 		}
 		strIdx := func(label string) string {
-			if rapid.IntRange(0, 25).Draw(rt, label+"Odd") == 0 {
+			if rapid.IntRange(0, 25).Draw(rt, label+"Odd") == 11 {
 				return rapid.SampledFrom([]string{"", "x", "01", " 1", "1.0", "99999999999999999999"}).Draw(rt, label+"OddKey")
 			}
 			return strconv.Itoa(idx(label))
@@ -1280,7 +1287,7 @@ func TestVerif_C04_CodecStrings(t *testing.T) {
 			w["bodymap"] = m
 		case 2:
 			k := n
-			if rapid.IntRange(0, 6).Draw(rt, "oldShort") == 0 {
+			if rapid.IntRange(0, 6).Draw(rt, "oldShort") == 3 {
 				k = max(0, n-1)
 			}
 			old := make([]string, k)
@@ -1296,7 +1303,12 @@ func TestVerif_C04_CodecStrings(t *testing.T) {
 			}
 			w["bodyKeyMap"] = m
 		}
-		switch rapid.IntRange(0, 4).Draw(rt, "channels") {
+		chKind := rapid.IntRange(0, 4).Draw(rt, "channels")
+		if chKind == 3 && n > 0 { // both formats at once: a valid form the decoder refuses with an error
+			w["channelsMap"] = map[string][]string{"0": {"x"}}
+			chKind = 2
+		}
+		switch chKind {
 		case 1:
 			m := map[string][]string{}
 			for k := rapid.IntRange(0, 2).Draw(rt, "cmN"); k > 0; k-- {
@@ -1305,7 +1317,7 @@ func TestVerif_C04_CodecStrings(t *testing.T) {
 			w["channelsMap"] = m
 		case 2:
 			k := n
-			if rapid.IntRange(0, 6).Draw(rt, "oldChLen") == 0 {
+			if rapid.IntRange(0, 6).Draw(rt, "oldChLen") == 3 {
 				k = n + 1
 			}
 			old := make([][]string, k)
